@@ -145,6 +145,8 @@ struct Latch {
 
 struct IoWorld;
 struct IoSlot;
+extern IoWorld* g_io_world;
+bool null_handler_filter(void* p);
 struct IoRcv {
   IoSlot* s;
   void set_value(ssize_t n) && noexcept;
@@ -211,6 +213,8 @@ struct IoWorld {
     fds_open = true;
     for (int i = 0; i < 2; ++i) { slot[i].w = this; slot[i].idx = i; }
     rtio::trace_fd(write_mode ? wfd : rfd);
+    g_io_world = this;
+    rtio::set_event_filter(&null_handler_filter);
     c.spawn_loop(false);
   }
   // environment: put n bytes (a running byte sequence) into the pipe
@@ -280,8 +284,30 @@ struct IoWorld {
     for (auto& s : slot) s.check_untouched();
   }
   bool fds_open = false;
-  ~IoWorld() { if (fds_open) { reader.destruct(); writer.destruct(); } }
+  ~IoWorld() { g_io_world = nullptr; if (fds_open) { reader.destruct(); writer.destruct(); } }
 };
+
+// Mirror of io_epoll_context::operation_base (private): { std::atomic<int> enqueued_; operation_base* next_;
+// void (*execute_)(operation_base*) noexcept; }.  Only used to LOOK at execute_ of a parked operation when
+// the kernel reports its descriptor: execute_pending_local() nulls execute_ when it runs the handler, so a
+// second readiness event for the same (not re-armed) operation makes the library call a null pointer.
+struct OpBaseLayout { std::atomic<int> enqueued_; void* next_; void (*execute_)(void*); };
+static_assert(sizeof(OpBaseLayout) == 24, "layout of io_epoll_context::operation_base changed");
+IoWorld* g_io_world = nullptr;
+bool null_handler_filter(void* p) {
+  IoWorld* w = g_io_world;
+  if (!w) return false;
+  for (auto& s : w->slot) {
+    auto* b = reinterpret_cast<unsigned char*>(p);
+    if (s.constructed && s.completions == 0 && b >= s.storage && b < s.storage + s.op_size) {
+      if (reinterpret_cast<OpBaseLayout*>(p)->execute_ == nullptr) {
+        rt::fail("second readiness event for op%d after its handler ran (execute_ == nullptr): null call in execute_pending_local", s.idx);
+        return true;
+      }
+    }
+  }
+  return false;
+}
 
 struct FenceRcv {
   Latch* f;
